@@ -318,11 +318,81 @@ def base_of_str(r_cls):
 
 
 BAD_ARGS = ["int", "str", "bytes", "frame8", "forward16", "list", "object", "float", "true", "response",
-            "response-none", "response-same-class", "tuple", "backward-class"]
+            "response-none", "response-same-class", "tuple", "backward-class",
+            "repr-NO_RESPONSE", "repr-None", "repr-BackwardFrame", "equals-everything", "falsy-object",
+            "legacy-tridonic-marker", "legacy-unipi-marker", "assign-forward16", "assign-int", "assign-frame8", "assign-response"]
+
+
+class _Repr:
+    def __init__(self, text):
+        self.text = text
+
+    def __repr__(self):
+        return self.text
+
+    __str__ = __repr__
+
+
+class _EqualsEverything:
+    def __eq__(self, other):
+        return True
+
+    def __ne__(self, other):
+        return False
+
+    __hash__ = None
+
+
+class _Falsy:
+    def __bool__(self):
+        return False
+
+    def __len__(self):
+        return 0
+
+
+def _legacy_marker(which):
+    """The 'no response' marker objects the legacy synchronous drivers return from send()."""
+    from props import c18
+    env = c18._env()
+    try:
+        if which == "tridonic":
+            return env["T"].DALI_USB_NO_RESPONSE
+        import importlib
+        return importlib.import_module("dali.driver.unipi").DALI_NO_RESPONSE
+    except Exception:  # noqa - marker not present in this version of the driver: use a look-alike
+        return _Repr("NO_RESPONSE")
 
 
 def case_ctor(r_cls, case):
     command, frame, exc = _load()
+    if case["arg"].startswith("assign-"):
+        # what a response holds after construction is still a backward frame or None
+        what = {"assign-forward16": frame.ForwardFrame(16, 5), "assign-int": 5, "assign-frame8": frame.Frame(8, 5),
+                "assign-response": command.Response(None)}[case["arg"]]
+        bad = []
+        for start in (None, frame.BackwardFrame(3)):
+            r = r_cls(start)
+            try:
+                r.raw_value = what
+            except Exception:  # noqa - refused: fine
+                pass
+            held = r.raw_value
+            if held is not None and not isinstance(held, frame.BackwardFrame):
+                bad.append("%s(%r) holds %r after raw_value was assigned" % (r_cls.__name__, start, held))
+        return [("C06:response-made-to-hold-a-non-frame", "; ".join(bad))] if bad else []
+    special = {"repr-NO_RESPONSE": lambda: _Repr("NO_RESPONSE"), "repr-None": lambda: _Repr("None"),
+               "repr-BackwardFrame": lambda: _Repr("BackwardFrame(5)"), "equals-everything": _EqualsEverything,
+               "falsy-object": _Falsy, "legacy-tridonic-marker": lambda: _legacy_marker("tridonic"),
+               "legacy-unipi-marker": lambda: _legacy_marker("unipi")}
+    if case["arg"] in special:
+        arg = special[case["arg"]]()
+        try:
+            r = r_cls(arg)
+        except Exception:  # noqa
+            return []
+        return [("C06:constructor-accepts-non-frame", "%s(%r) [%s] was accepted; it now holds %r"
+                 % (r_cls.__name__, arg, case["arg"], r.raw_value))]
     arg = {"int": 5, "str": "wibble", "bytes": b"\x05", "frame8": frame.Frame(8, 5),
            "forward16": frame.ForwardFrame(16, 5), "list": [5], "object": object(), "float": 5.0,
            "true": True, "response": command.Response(frame.BackwardFrame(5)),
